@@ -129,6 +129,37 @@ def run(F, rep):
         if c.get('k') == 'Call' and c.get('fn') in ('generateCode', 'generateInitialisationCode') and 'EXTERNAL' in {label_enum(l) for l in case_labels_reaching(ge, c)[1]}:
             rep.fail('C20.G1', 'external-case|%s' % c['fn'], ge.where(c), 'the EXTERNAL case also emits `%s`: the value would not come from the callback alone' % render(c)[:50])
 
+    # ------------------------------------------------------------------ E: which variables count as external
+    rep.rule('C20.E1', 'whether the analysed model has external variables (extra pass of the analysis loop, AnalyserModel::hasExternalVariables, the callback in the generated code) is derived from the internal variables of THIS model that are marked external, '
+                       'not from the list of external variables registered with the analyser (which may belong to another model and are ignored with a message)')
+    am = F.fn1('Analyser::AnalyserImpl::analyseModel')
+    writes = [a for a in am.walk() if a.get('k') == 'Bin' and a.get('op') == '=' and render(a['c'][0]).endswith('mHasExternalVariables')]
+    if len(writes) != 1:
+        raise AnalysisBroken('analyseModel: assignment of mHasExternalVariables vanished (%d)' % len(writes))
+    src = writes[0]['c'][1]
+    exprs = [src]
+    if src.get('k') == 'Ref' and src.get('dk') == 'local':
+        exprs = [v['c'][0] for v in am.walk() if v.get('k') == 'Var' and v.get('d') == src['d'] and v.get('c')]
+    txt = ' '.join(render(e) for e in exprs)
+    members = {m['n'] for e in exprs for m in walk(e) if m.get('k') == 'Member' and m.get('field')}
+    names = members | {m.get('n') for e in exprs for m in walk(e) if m.get('k') in ('DepMember', 'Member') and m.get('n')}
+    if 'mIsExternal' in txt:
+        names.add('mIsExternal')
+    members = names
+    rep.check('mInternalVariables' in members and 'mIsExternal' in members and 'mExternalVariables' not in members, 'C20.E1', 'hasExternalVariables', am.where(writes[0]),
+              'hasExternalVariables is computed from %s' % sorted(members), 'some internal variable of this model has mIsExternal')
+
+    rep.rule('C20.R1', 'isStateRateBased marks an equation as checked BEFORE it descends into the equation\'s dependencies (user-supplied dependencies of external variables can be cyclic: a depends on b, b on a)')
+    isr = F.fn1('Analyser::AnalyserImpl::isStateRateBased')
+    recs = [c for c in isr.walk() if c.get('k') == 'Call' and isr.key in F.callee_keys(c)]
+    cont = [p_ for p_ in isr.params if 'std::vector<' in p_['t'] and p_['t'].rstrip().endswith('&')]
+    if not recs or len(cont) != 1:
+        raise AnalysisBroken('isStateRateBased: recursion / checked-equations parameter vanished')
+    marks = [c for c in isr.walk() if c.get('k') == 'Call' and c.get('mc') and c.get('fn') in ('push_back', 'emplace_back', 'insert') and c['c'][0].get('k') == 'Ref' and c['c'][0].get('d') == cont[0]['d']]
+    cfg_i = isr.cfg()
+    for c in recs:
+        rep.check(any(cfg_i.node_dominates(m_, c) for m_ in marks), 'C20.R1', 'mark-before-descend|%s' % render(c)[:40], isr.where(c), 'the recursive call is not dominated by the insertion of the current equation into %s: two equations that depend on each other recurse for ever' % cont[0]['n'], 'marked before descending')
+
 
 def _all_paths_pass(cfg, start, target, through_ids):
     """Every path from AST node start to AST node target evaluates one of through_ids."""
